@@ -531,6 +531,7 @@ func TestC04_SlowRecovery(t *testing.T) {
 		rec := &recTB{sigs: map[string]bool{}}
 		stalled := false
 		var hist string
+		began := time.Now()
 		vk.Guard(func() {
 			cfg := simCfg{begin: "FIX.4.4", store: "memory", hb: 30, chunk: chunk, settings: map[string]string{config.MaxLatency: "2"}}
 			scriptedC04(rec, cfg, 0, false, func(s *sim) {
@@ -563,6 +564,11 @@ func TestC04_SlowRecovery(t *testing.T) {
 				hist = s.history()
 			})
 		})
+		// (the whole scenario is one 2.4 s wait plus a few synchronous steps, the closing live
+		// message of the scripted run included)
+		if time.Since(began) > 3600*time.Millisecond {
+			stalled = true
+		}
 		c.Eval()
 		c.Class(fmt.Sprintf("slow-recovery:chunk=%d", chunk))
 		switch {
